@@ -118,6 +118,33 @@ func runC10(c *fw.Case) {
 	} else {
 		copy(e2.S, e1.S)
 	}
+	// e3: an enum over a different declared value list than e1 (reversed, extended or truncated)
+	e3variant := ""
+	if e1.Strict() {
+		e3 := model.NewCol("e3", model.KEnum, rows)
+		e3.EnumKnown = true
+		vals := append([]string(nil), e1.EnumVals...)
+		switch v := rng.Intn(3); {
+		case v == 0 && len(vals) >= 2:
+			for i, j := 0, len(vals)-1; i < j; i, j = i+1, j-1 {
+				vals[i], vals[j] = vals[j], vals[i]
+			}
+			e3variant = "reversed"
+		case v == 1 && len(vals) >= 2:
+			vals = vals[:len(vals)-1]
+			e3variant = "truncated"
+		default:
+			vals = append(vals, "e3-extra-value")
+			e3variant = "extended"
+		}
+		e3.EnumVals = vals
+		for i := range e3.S {
+			if rng.Intn(4) > 0 {
+				e3.S[i] = model.StrP(vals[rng.Intn(len(vals))])
+			}
+		}
+		f.Cols = append(f.Cols, e3)
+	}
 	root, err := model.MakeRootFrom(rng, f, 2, false)
 	if err != nil {
 		c.Count("root_build_failed", 1)
@@ -552,6 +579,160 @@ func runC10(c *fw.Case) {
 		}
 	}
 	_ = before
+
+	// ------------------------------------------------------------ (b') the typed product
+	// "a function taking an argument matching the column type": every user function whose parameter
+	// type belongs to another column type, and every comparator that is neither a name nor a function,
+	// is invalid on every column type, in every position a leaf can take.
+	type kcol struct{ name, elem string }
+	var kcols []kcol
+	for _, kc := range []kcol{{iC, "i"}, {fC, "f"}, {bC, "b"}, {sC, "s"}, {eC, "s"}} {
+		if kc.name != "" {
+			kcols = append(kcols, kc)
+		}
+	}
+	type tfn struct {
+		elem string // "i","f","b","s"; "-" = valid for no column type
+		desc string
+		fn   interface{}
+	}
+	filt1 := []tfn{
+		{"i", "func(int) bool", func(int) bool { cb.hit(); return true }}, {"f", "func(float64) bool", func(float64) bool { cb.hit(); return true }},
+		{"b", "func(bool) bool", func(bool) bool { cb.hit(); return true }}, {"s", "func(*string) bool", func(*string) bool { cb.hit(); return true }},
+		{"-", "func() bool", func() bool { cb.hit(); return true }}, {"-", "func(int64) bool", func(int64) bool { cb.hit(); return true }},
+		{"-", "func(int) (bool, error)", func(int) (bool, error) { cb.hit(); return true, nil }}, {"-", "func(float32) bool", func(float32) bool { cb.hit(); return true }},
+		{"-", "42", 42}, {"-", "3.5", 3.5}, {"-", "nil", nil}, {"-", "[]int{1}", []int{1}}, {"-", "struct{}{}", struct{}{}}, {"-", "true", true},
+	}
+	for _, kc := range kcols {
+		for _, tf := range filt1 {
+			if tf.elem == kc.elem {
+				continue
+			}
+			leaf := qframe.Filter{Column: kc.name, Comparator: tf.fn}
+			inv := leaf
+			inv.Inverse = true
+			for fi, cl := range []qframe.FilterClause{leaf, inv, qframe.Not(leaf), qframe.Or(qframe.Filter{Column: iC, Comparator: "isnotnull"}, leaf), qframe.And(qframe.Not(inv))} {
+				cl := cl
+				judge(fmt.Sprintf("Filter %s column with comparator %s (form %d)", kc.elem, tf.desc, fi), "Filter", true, func() qframe.QFrame { return qf.Filter(cl) })
+				if c.Failed() {
+					return
+				}
+			}
+		}
+	}
+	filt2 := []tfn{
+		{"i", "func(int, int) bool", func(int, int) bool { cb.hit(); return true }}, {"f", "func(float64, float64) bool", func(float64, float64) bool { cb.hit(); return true }},
+		{"b", "func(bool, bool) bool", func(bool, bool) bool { cb.hit(); return true }}, {"s", "func(*string, *string) bool", func(*string, *string) bool { cb.hit(); return true }},
+	}
+	mixIF := func(a, b string) bool { return a != b && (a == "i" || a == "f") && (b == "i" || b == "f") }
+	for _, kx := range kcols {
+		for _, ky := range kcols {
+			if mixIF(kx.elem, ky.elem) {
+				continue // int and float columns are promoted for comparison with each other
+			}
+			for _, tf := range filt2 {
+				if tf.elem == kx.elem && tf.elem == ky.elem {
+					continue // valid, or string against enum (not demanded)
+				}
+				for _, inverse := range []bool{false, true} {
+					fl := qframe.Filter{Column: kx.name, Comparator: tf.fn, Arg: types.ColumnName(ky.name), Inverse: inverse}
+					judge(fmt.Sprintf("Filter %s column against %s column with %s, Inverse=%v", kx.elem, ky.elem, tf.desc, inverse), "Filter", true, func() qframe.QFrame { return qf.Filter(fl) })
+					if c.Failed() {
+						return
+					}
+				}
+			}
+		}
+	}
+	// enum columns over different value lists are different types
+	if c1, c3 := root.Shadow.Col("e1"), root.Shadow.Col("e3"); e3variant != "" && c1 != nil && c3 != nil && c1.Kind == model.KEnum && c3.Kind == model.KEnum {
+		for _, cmp := range []string{"=", "!=", "<", "<=", ">", ">="} {
+			for _, pair := range [][2]string{{"e1", "e3"}, {"e3", "e1"}} {
+				for _, inverse := range []bool{false, true} {
+					fl := qframe.Filter{Column: pair[0], Comparator: cmp, Arg: types.ColumnName(pair[1]), Inverse: inverse}
+					c.Count("enum_type_mismatch:"+e3variant, 1)
+					judge(fmt.Sprintf("Filter enum column %s %s enum column %s over a different (%s) value list, Inverse=%v", pair[0], cmp, pair[1], e3variant, inverse), "Filter", true, func() qframe.QFrame { return qf.Filter(fl) })
+					if c.Failed() {
+						return
+					}
+				}
+			}
+		}
+	}
+	sp := func(s string) *string { return &s }
+	apply1 := []tfn{
+		{"i", "func(int) int", func(int) int { cb.hit(); return 1 }}, {"i", "func(int) float64", func(int) float64 { cb.hit(); return 1 }}, {"i", "func(int) bool", func(int) bool { cb.hit(); return true }}, {"i", "func(int) *string", func(int) *string { cb.hit(); return sp("x") }},
+		{"f", "func(float64) int", func(float64) int { cb.hit(); return 1 }}, {"f", "func(float64) float64", func(float64) float64 { cb.hit(); return 1 }}, {"f", "func(float64) bool", func(float64) bool { cb.hit(); return true }}, {"f", "func(float64) *string", func(float64) *string { cb.hit(); return sp("x") }},
+		{"b", "func(bool) int", func(bool) int { cb.hit(); return 1 }}, {"b", "func(bool) float64", func(bool) float64 { cb.hit(); return 1 }}, {"b", "func(bool) bool", func(bool) bool { cb.hit(); return true }}, {"b", "func(bool) *string", func(bool) *string { cb.hit(); return sp("x") }},
+		{"s", "func(*string) int", func(*string) int { cb.hit(); return 1 }}, {"s", "func(*string) float64", func(*string) float64 { cb.hit(); return 1 }}, {"s", "func(*string) bool", func(*string) bool { cb.hit(); return true }}, {"s", "func(*string) *string", func(*string) *string { cb.hit(); return sp("x") }},
+		{"-", "func(int64) int64", func(int64) int64 { cb.hit(); return 1 }}, {"-", "func(int) (int, error)", func(int) (int, error) { cb.hit(); return 1, nil }}, {"-", "func(float32) float32", func(float32) float32 { cb.hit(); return 1 }},
+		{"-", "func(uint) uint", func(uint) uint { cb.hit(); return 1 }}, {"-", "func([]int) int", func([]int) int { cb.hit(); return 1 }},
+	}
+	for _, kc := range kcols {
+		for _, tf := range apply1 {
+			if tf.elem == kc.elem {
+				continue
+			}
+			fn := tf.fn
+			src := kc.name
+			judge(fmt.Sprintf("Apply %s to %s column", tf.desc, kc.elem), "Apply", true, func() qframe.QFrame {
+				return qf.Apply(qframe.Instruction{Fn: fn, DstCol: "x", SrcCol1: src})
+			})
+			if c.Failed() {
+				return
+			}
+		}
+	}
+	apply2 := []tfn{
+		{"i", "func(int, int) int", func(int, int) int { cb.hit(); return 1 }}, {"f", "func(float64, float64) float64", func(float64, float64) float64 { cb.hit(); return 1 }},
+		{"b", "func(bool, bool) bool", func(bool, bool) bool { cb.hit(); return true }}, {"s", "func(*string, *string) *string", func(*string, *string) *string { cb.hit(); return sp("x") }},
+		{"-", "func(int, float64) int", func(int, float64) int { cb.hit(); return 1 }}, {"-", "func(int, int, int) int", func(int, int, int) int { cb.hit(); return 1 }},
+	}
+	for _, kx := range kcols {
+		for _, ky := range kcols {
+			for _, tf := range apply2 {
+				if tf.elem == kx.elem && tf.elem == ky.elem {
+					continue
+				}
+				fn := tf.fn
+				s1, s2 := kx.name, ky.name
+				judge(fmt.Sprintf("Apply %s to %s and %s columns", tf.desc, kx.elem, ky.elem), "Apply", true, func() qframe.QFrame {
+					return qf.Apply(qframe.Instruction{Fn: fn, DstCol: "x", SrcCol1: s1, SrcCol2: s2})
+				})
+				if c.Failed() {
+					return
+				}
+			}
+		}
+	}
+	aggT := []tfn{
+		{"i", "func([]int) int", func([]int) int { cb.hit(); return 1 }}, {"f", "func([]float64) float64", func([]float64) float64 { cb.hit(); return 1 }},
+		{"b", "func([]bool) bool", func([]bool) bool { cb.hit(); return true }}, {"s", "func([]*string) *string", func([]*string) *string { cb.hit(); return sp("x") }},
+		{"-", "func(int) int", func(int) int { cb.hit(); return 1 }}, {"-", "func([]int64) int64", func([]int64) int64 { cb.hit(); return 1 }}, {"-", "func() int", func() int { cb.hit(); return 1 }},
+		{"-", "func([]int) (int, error)", func([]int) (int, error) { cb.hit(); return 1, nil }}, {"-", "17", 17},
+	}
+	for _, kc := range kcols {
+		for _, tf := range aggT {
+			if tf.elem == kc.elem {
+				continue
+			}
+			fn := tf.fn
+			col := kc.name
+			for _, grouped := range []bool{false, true} {
+				grouped := grouped
+				judge(fmt.Sprintf("Aggregate %s column with %s (grouped=%v)", kc.elem, tf.desc, grouped), "Aggregate", true, func() qframe.QFrame {
+					g := qf.GroupBy(groupby.Columns())
+					if grouped && bC != col {
+						g = qf.GroupBy(groupby.Columns(bC))
+					}
+					return g.Aggregate(qframe.Aggregation{Fn: fn, Column: col, As: "agg"})
+				})
+				if c.Failed() {
+					return
+				}
+			}
+		}
+	}
 
 	// ------------------------------------------------------------ (c) stickiness
 	type cont struct {
